@@ -8,6 +8,8 @@ Tie (b) correspondence, model evaluated by vm_compute inside Coq on the same inp
   sanitise     mapproxy.cache.path._path_component(s)                   vs  path_component / encode
   dims         mapproxy.cache.path.dimensions_part(dict)                vs  dimensions_part py_lower
   tilepath     path.tile_location_<layout>(Tile, root, ext, dimensions) vs  tile_path (rendering of gen/Gen_path.v)
+  filecache    FileCache(root, ext, directory_layout).tile_location / .level_location (the METHODS, every layout, hostile
+               dimension names and values)                              vs  tile_path / file_level_location
   levelpath    path.level_location(level, root, dimensions)             vs  level_location
   lockname     TileLocker(lock_dir, _, id).lock_filename(tile)          vs  lock_filename
   multiapp     Request.pop_path + DirectoryConfLoader.filename_from_app_name vs app_filename (pop_path p)
@@ -375,11 +377,63 @@ def stream_paths(ctx, corpus):
             ctx.fail('lockname,escapes-lock-dir', 'lock_filename: %r is not a file directly in the lock directory %r' % (o[1], lock_dir), rep)
         terms.append('(2, "", %s, [(%s, [])], (%s, %s, %s), "", %s)' % (strlit(lock_dir), strlit(cid), zlit(x), zlit(y), zlit(z), obs_lit(o)))
         descr.append(rep)
+    # the methods of FileCache (any path construction inside cache/file.py itself is covered here), every layout, hostile names and values
+    from mapproxy.cache.file import FileCache
+    hostile = [{'DIM_/../../../../x': '1'}, {'dim_/../../../../x': '../../../../y'}, {'TIME': '../../../../x'}, {'elevation': '/abs'},
+               {'dim_..': '..'}, {'DIM_\\..\\..': '\\..\\x'}, {'dim_a/../../..': 'a/b', 'time': '2020-01-01'}, {'dim_\0': '\0'},
+               {'/../../../..': 'v'}, {'..': '..'}, {'': '/../../../..'}]
+    for i in range(ctx.n(360, 2400)):
+        layout = LAYOUTS[i % len(LAYOUTS)]
+        x, y, z = gen_coord(rng, 40)
+        root = ROOTS[0] if rng.random() < 0.7 else rng.choice(ROOTS[:6])
+        ext = rng.choice(['png', 'jpeg'])
+        d = hostile[(i // len(LAYOUTS)) % len(hostile)] if i < 6 * len(hostile) else (gen_dims(rng) if rng.random() < 0.85 else None)
+
+        def impl():
+            return FileCache(root, ext, directory_layout=layout).tile_location(Tile((x, y, z)), dimensions=d)
+        o = call(impl)
+        rep = {'function': "FileCache(cache_dir, file_ext, directory_layout).tile_location(Tile(coord), dimensions=...)", 'directory_layout': layout,
+               'coord': [x, y, z], 'cache_dir': root, 'file_ext': ext, 'dimensions': d, 'output': o[1]}
+        ctx.case(('filecache.tile_location', layout, x, y, z, root, ext, tuple((d or {}).items())), bool(d), dict(rep, stream='filecache'))
+        ctx.count('filecache.tile_location ' + layout)
+        if o[0] != 'ok' or not isinstance(o[1], str):
+            ctx.fail('filecache,raised', 'FileCache.tile_location raised %s for %r' % (o[1], rep), rep)
+        elif not below(root, o[1]):
+            ctx.fail('filecache,tile-escapes-cache-dir', 'FileCache(%r, directory_layout=%r).tile_location(dimensions=%r) = %r is not below the cache directory'
+                     % (root, layout, d, o[1]), rep)
+        terms.append('(0, %s, %s, %s, (%s, %s, %s), %s, %s)' % (slit(layout), strlit(root), dimslit(d or {}), zlit(x), zlit(y), zlit(z), slit(ext), obs_lit(o)))
+        descr.append(rep)
+    for i in range(ctx.n(150, 900)):
+        layout = LAYOUTS[i % len(LAYOUTS)]
+        level = rng.choice([0, 1, 2, 9, 10, 22, 99, 100, 12345])
+        root = ROOTS[0] if rng.random() < 0.7 else rng.choice(ROOTS[:6])
+        d = hostile[(i // len(LAYOUTS)) % len(hostile)] if i < 6 * len(hostile) else (gen_dims(rng) if rng.random() < 0.85 else None)
+
+        def impl2():
+            c = FileCache(root, 'png', directory_layout=layout)
+            if c.level_location is None:
+                return None
+            return c.level_location(level, dimensions=d)
+        o = call(impl2)
+        if o[0] == 'raised' and o[1] == 'NotImplementedError':
+            o = ('ok', None)      # quadkey: no level directories
+        rep = {'function': "FileCache(cache_dir, 'png', directory_layout).level_location(level, dimensions=...)", 'directory_layout': layout,
+               'level': level, 'cache_dir': root, 'dimensions': d, 'output': o[1]}
+        ctx.case(('filecache.level_location', layout, level, root, tuple((d or {}).items())), bool(d), dict(rep, stream='filecache'))
+        ctx.count('filecache.level_location ' + layout)
+        if o[0] != 'ok':
+            ctx.fail('filecache,raised', 'FileCache.level_location raised %s for %r' % (o[1], rep), rep)
+        elif isinstance(o[1], str) and not below(root, o[1]):
+            ctx.fail('filecache,level-escapes-cache-dir', 'FileCache(%r, directory_layout=%r).level_location(%r, dimensions=%r) = %r is not below the cache directory'
+                     % (root, layout, level, d, o[1]), rep)
+        terms.append('(3, %s, %s, %s, (%s, 0, 0), "", %s)' % (slit(layout), strlit(root), dimslit(d or {}), zlit(level), obs_lit(o)))
+        descr.append(rep)
     checker = ("fun c => let '(kind, layout, root, dm, xyz, ext, out) := c in let '(x, y, z) := xyz in "
                "opt_eqb str_eqb (model_path kind layout root dm x y z ext) out")
     defs = ('Definition model_path (kind : Z) (layout : string) (root : str) (dm : dims) (x y z : Z) (ext : string) : option str :=\n'
             '  if kind =? 0 then match location_funcs layout with Some f => Some (tile_path py_lower f root dm x y z ext) | None => None end\n'
             '  else if kind =? 1 then Some (level_location py_lower root dm x)\n'
+            '  else if kind =? 3 then file_level_location py_lower layout root dm x\n'
             '  else Some (lock_filename root (match dm with (cid, _) :: _ => cid | [] => [] end) x y z).\n')
     ctx.corr_check('paths', MODEL, 'Z * string * str * dims * (Z * Z * Z) * string * option str', terms, checker,
                    lambda i: descr[i], defs=defs)
@@ -781,6 +835,14 @@ def gen_requests(ctx, corpus):
     reqs.append(getmap('l_tc', [('DIM_/../../../outside/y', '1')], z=1))
     reqs.append(getmap('l_tms', [('TIME', '/' + 'abs')], z=1))
     reqs.append(getmap('l_mp', [('ELEVATION', '..\\..\\x\0y')], z=1))
+    # every backend / directory layout gets hostile dimension NAMES and VALUES (deep enough to leave the cache directory if used verbatim)
+    up = '../' * 8
+    matrix = [[('DIM_/' + up + 'outside/n', '1')], [('TIME', up + 'outside/v')], [('DIM_X', up + 'outside/v'), ('DIM_/' + up + 'outside/n2', 'v/' + up + 'w')],
+              [('ELEVATION', '/' + 'outside'), ('TIME', TIMES[0])], [('DIM_..\\..\\x', '..\\..\\y')], [('dim_' + up.rstrip('/'), up.rstrip('/'))],
+              [('DIM_\0n', 'v\0')]]
+    for layer in layers:
+        for k, dims in enumerate(matrix):
+            reqs.append(getmap(layer, dims, z=1 + k % 2))
     nwms = ctx.n(70, 500)
     for i in range(nwms):
         layer = rng.choice(['l_tc'] * 4 + ['l_mp', 'l_tms', 'l_rtms', 'l_quad', 'l_arc', 'l_link', 'l_mb', 'l_sq', 'l_gpkg', 'l_cmp1', 'l_cmp2'])
